@@ -2,6 +2,7 @@ package props
 
 import (
 	"fmt"
+	"strings"
 	"math/rand/v2"
 	"sort"
 
@@ -174,6 +175,8 @@ var c16Fs = []c16F{
 	}},
 	{"* {..}", false, func(r *rand.Rand, in *ref.V) (string, []int, bool) { return `. * {"zz": {"q": [1, 2]}}`, nil, true }},
 	{"+ {..}", false, func(r *rand.Rand, in *ref.V) (string, []int, bool) { return `. + {"zz": [1, {"w": 2}]}`, nil, true }},
+	{".x + .y", false, func(r *rand.Rand, in *ref.V) (string, []int, bool) { return ".x + .y", nil, true }},
+	{".x * .y", false, func(r *rand.Rand, in *ref.V) (string, []int, bool) { return ".x * .y", nil, true }},
 	{"sort_keys", false, func(r *rand.Rand, in *ref.V) (string, []int, bool) { return "sort_keys(.)", nil, true }},
 	{"to_entries", false, func(r *rand.Rand, in *ref.V) (string, []int, bool) { return "to_entries", nil, true }},
 	{"[.[]]", true, func(r *rand.Rand, in *ref.V) (string, []int, bool) { return "[.[]]", nil, true }},
@@ -240,6 +243,23 @@ func (p c16) Run(w *mon.Worker, idx int) mon.Result {
 	full := expr
 	var prefix []any
 	input := doc
+	pair := strings.HasPrefix(expr, ".x ")
+	if pair {
+		// .x OP .y on two sub-maps that share keys: every node of the result belongs to the document, under .x
+		y := &ref.V{K: ref.Map, M: []ref.KV{}}
+		for i, kv := range doc.M {
+			switch (i + r.IntN(3)) % 3 {
+			case 0:
+				y.M = append(y.M, ref.KV{K: kv.K, V: ref.MapV(ref.KV{K: "q", V: ref.SeqV(ref.IntV(1), ref.MapV(ref.KV{K: "w", V: ref.IntV(2)}))})})
+			case 1:
+				y.M = append(y.M, ref.KV{K: kv.K, V: ref.SeqV(ref.StrV("o"), ref.MapV(ref.KV{K: "p", V: ref.NullV()}))})
+			}
+		}
+		y.M = append(y.M, ref.KV{K: "only_y", V: ref.MapV(ref.KV{K: "z", V: ref.IntV(3)})})
+		input = ref.MapV(ref.KV{K: "x", V: doc}, ref.KV{K: "y", V: y})
+		prefix = []any{"x"}
+		res.Tags = append(res.Tags, "pair")
+	}
 	if writeBack {
 		input = ref.MapV(ref.KV{K: "y", V: doc}, ref.KV{K: "keep", V: ref.IntV(1)})
 		if r.IntN(2) == 0 {
@@ -290,7 +310,7 @@ func (p c16) Run(w *mon.Worker, idx int) mon.Result {
 	res.Nontrivial = n >= 4
 	// the document that the paths are relative to: the value itself, or the wrapper for write-back forms
 	var base *ref.V = root
-	if writeBack {
+	if writeBack || pair {
 		// paths are reported from the document root: wrap so that walking works
 		base = ref.MapV(ref.KV{K: fmt.Sprint(prefix[0]), V: root})
 	}
@@ -372,13 +392,16 @@ func (p c16) Run(w *mon.Worker, idx int) mon.Result {
 			break
 		}
 	}
-	// (iv) enumeration: keys / to_entries of every container == keys of its children, in order
-	if violation == "" {
+	// (iv) enumeration: keys / to_entries of every container list exactly the positions / keys its
+	// children are at, in order. This part is asserted even where the recorded-index deviation
+	// applies (keys and to_entries are truthful there on the pinned tree).
+	enumViolation := ""
+	{
 		ks, ek := q(`[.. | select(kind != "scalar") | keys]`)
 		es, ee := q(`[.. | select(kind != "scalar") | [to_entries | .[] | .key]]`)
 		if ek == nil && ee == nil {
 			ci := 0
-			for i := 0; i < n && violation == ""; i++ {
+			for i := 0; i < n && enumViolation == ""; i++ {
 				v := vals.A[i]
 				if v.IsScalar() {
 					continue
@@ -393,7 +416,6 @@ func (p c16) Run(w *mon.Worker, idx int) mon.Result {
 						want = append(want, ref.StrV(kv.K))
 					}
 				}
-				// the children's own `key` reports, in order
 				var childKeys []any
 				for j := 0; j < n; j++ {
 					if len(infos[j].path) == len(infos[i].path)+1 && ref.IsPrefix(infos[i].path, infos[j].path) {
@@ -401,28 +423,35 @@ func (p c16) Run(w *mon.Worker, idx int) mon.Result {
 					}
 				}
 				if ci >= len(ks.A) || ci >= len(es.A) {
-					violation = "enumeration: fewer keys results than containers"
+					enumViolation = "enumeration: fewer keys results than containers"
 					break
 				}
-				for _, got := range []*ref.V{ks.A[ci], es.A[ci]} {
+				for gi, got := range []*ref.V{ks.A[ci], es.A[ci]} {
+					name := []string{"keys", "to_entries"}[gi]
 					if len(got.A) != len(want) {
-						violation = fmt.Sprintf("enumeration: container at %s has %d children but keys/to_entries list %s", ref.PathString(infos[i].path), len(want), got)
+						enumViolation = fmt.Sprintf("enumeration: container %s has %d children but %s lists %s", clipStr(v.JSON(), 100), len(want), name, got)
 						break
 					}
 					for x := range want {
 						if got.A[x].Text() != want[x].Text() {
-							violation = fmt.Sprintf("enumeration: container at %s: keys/to_entries list %s, children are at %v", ref.PathString(infos[i].path), got, want)
+							enumViolation = fmt.Sprintf("enumeration: container %s: %s lists %s, its children are at %v", clipStr(v.JSON(), 100), name, got, want)
 							break
 						}
-						if x < len(childKeys) && !anyEq(childKeys[x], got.A[x].Text()) {
-							violation = fmt.Sprintf("enumeration: container at %s: child %d reports key %v but keys lists %s", ref.PathString(infos[i].path), x, childKeys[x], got.A[x])
-							break
+						// the children's own `key` reports agree with keys (part of the local relation; only where no recorded deviation applies)
+						if violation == "" && x < len(childKeys) && !anyEq(childKeys[x], got.A[x].Text()) {
+							violation = fmt.Sprintf("enumeration: container at %s: child %d reports key %v but %s lists %s", ref.PathString(infos[i].path), x, childKeys[x], name, got.A[x])
 						}
+					}
+					if enumViolation != "" {
+						break
 					}
 				}
 				ci++
 			}
 		}
+	}
+	if enumViolation != "" {
+		return fail("%s\n f = %s\n doc = %s\n value = %s", enumViolation, full, input, clipStr(root.JSON(), 300))
 	}
 	if violation == "" {
 		res.Verdict = mon.Held
